@@ -180,3 +180,28 @@ Proof.
   split; intros; apply ok_or_err_class; [apply aux_guard_redundant|apply bjj_value_guard_redundant].
 Qed.
 
+Lemma c12_path_mt_entry_total :
+  forall (P : prim) (l : list wpart),
+  prim_ok P ->
+  (exists z, path_mt_entry all_guards P l = Ok (Some z)) \/
+  (exists t, path_mt_entry all_guards P l = Err t).
+Proof.
+  intros P l HP. apply some_or_err_spec. apply path_mt_entry_some_or_err; assumption.
+Qed.
+
+Lemma c12_rdfentry_key_value_total :
+  forall (P : prim) (s : list tok),
+  prim_ok P -> p_prime P <> 0 ->
+  (exists k v, rdfentry_key_value all_guards P s = Ok (Some k, Some v)) \/
+  (exists t, rdfentry_key_value all_guards P s = Err t).
+Proof.
+  intros P s HP Hq. pose proof (rdfentry_key_value_total P s HP Hq) as H.
+  destruct (rdfentry_key_value all_guards P s) as [[[k|] [v|]]|t|w|]; try contradiction; eauto.
+Qed.
+
+Lemma c12_empty_key_part_needs_the_guard :
+  exists P l, class_of (path_mt_entry (g_without 0) P l) = CPanic.
+Proof.
+  exists demo_prim. eexists. change (g_without 0) with no_empty_guard. rewrite empty_key_part_refuted. reflexivity.
+Qed.
+
